@@ -158,9 +158,11 @@ func (p Params[T]) Config(ctx context.Context, t *T, sources ...Source) (*Dials[
 		// the time.
 		cbch := make(chan userCallbackEvent, 64)
 		d.cbch = cbch
+		d.monDone = make(chan struct{})
 		cbmgr := callbackMgr[T]{
-			p:  &p,
-			ch: cbch,
+			p:       &p,
+			ch:      cbch,
+			monDone: d.monDone,
 		}
 		go cbmgr.runCBs(ctx)
 
@@ -385,6 +387,9 @@ func (u *userCallbackUnregisterToken[T]) unregister(ctx context.Context) bool {
 	select {
 	case <-ctx.Done():
 		return false
+	case <-u.d.monDone:
+		// the monitor has exited, the callback goroutine may be gone
+		return false
 	case <-doneCh:
 		return true
 	}
@@ -523,6 +528,9 @@ func (d *Dials[T]) submitEventBlocking(ctx context.Context, ev userCallbackEvent
 	select {
 	case <-ctx.Done():
 		return false
+	case <-d.monDone:
+		// the monitor has exited; nothing will handle this event
+		return false
 	case d.cbch <- ev:
 		return true
 	}
@@ -632,7 +640,9 @@ func (d *Dials[T]) monitor(
 	watcherChan chan watchStatusUpdate,
 	monCtl <-chan verifyEnable[T],
 ) {
-	defer close(d.cbch)
+	// Signal shutdown rather than closing cbch: API callers
+	// (RegisterCallback, unregister) may still be sending on it.
+	defer close(d.monDone)
 	skipVerify := d.params.DelayInitialVerification
 	for {
 		select {
